@@ -191,6 +191,172 @@ func (x *c01Ctx) roleRules() {
 	x.base64G(e)
 	x.base64G(d)
 	x.bufferSizeG(e, d)
+	x.callbackMemory(e.g, "Encrypt", "C01.R9-callback-memory", []string{"WrapKeyFn"})
+	x.callbackMemory(d.g, "Decrypt", "C01.R9-callback-memory", []string{"UnwrapKeyFn"})
+}
+
+// ---------------------------------------------------------------- R9: memory owned by the caller's callbacks
+
+type c01Sink struct {
+	dst  CV
+	what string
+	pos  string
+}
+
+// writeSinks: the places in the graph that overwrite the content of a byte slice: clear(x), copy(x, …),
+// x[i] = v, and the destination arguments of the library writers used around key material. Deferred calls
+// (builtins and same-package functions / closures, one level) are included.
+func (g *cGraph) writeSinks(p *Prog) []c01Sink {
+	var out []c01Sink
+	isBytes := func(v ssa.Value) bool {
+		sl, ok := v.Type().Underlying().(*types.Slice)
+		if !ok {
+			return false
+		}
+		b, ok := sl.Elem().Underlying().(*types.Basic)
+		return ok && b.Kind() == types.Byte
+	}
+	var fromCall func(c *cgCtx, cc *ssa.CallCommon, pos token.Pos, deferred bool, depth int)
+	fromCall = func(c *cgCtx, cc *ssa.CallCommon, pos token.Pos, deferred bool, depth int) {
+		add := func(v ssa.Value, what string) {
+			if v != nil && isBytes(v) {
+				out = append(out, c01Sink{CV{c, v}, what, p.Pos(pos)})
+			}
+		}
+		if b, ok := cc.Value.(*ssa.Builtin); ok {
+			switch b.Name() {
+			case "clear":
+				if len(cc.Args) == 1 {
+					add(cc.Args[0], "clear()")
+				}
+			case "copy":
+				if len(cc.Args) == 2 {
+					add(cc.Args[0], "copy() into it")
+				}
+			}
+			return
+		}
+		var obj *types.Func
+		if cc.IsInvoke() {
+			obj = cc.Method
+		} else if f, ok := cc.Value.(*ssa.Function); ok {
+			obj, _ = f.Object().(*types.Func)
+		}
+		if obj != nil && obj.Pkg() != nil {
+			full := obj.Pkg().Path() + "." + obj.Name()
+			args := cc.Args
+			if !cc.IsInvoke() && obj.Type().(*types.Signature).Recv() != nil && len(args) > 0 {
+				args = args[1:]
+			}
+			dstIdx := -1
+			switch full {
+			case "io.ReadFull", "io.ReadAtLeast":
+				dstIdx = 1
+			case "crypto/rand.Read", "crypto/subtle.XORBytes", "crypto/subtle.ConstantTimeCopy", "encoding/base64.Encode", "encoding/hex.Encode",
+				"encoding/binary.PutUint16", "encoding/binary.PutUint32", "encoding/binary.PutUint64", "crypto/cipher.XORKeyStream", "crypto/cipher.Seal", "crypto/cipher.Open", "io.Read":
+				dstIdx = 0
+				if full == "crypto/subtle.ConstantTimeCopy" {
+					dstIdx = 1
+				}
+			}
+			if dstIdx >= 0 && dstIdx < len(args) {
+				add(args[dstIdx], full+" writing into it")
+			}
+		}
+		// deferred same-package function or closure: its own sinks on parameters / captured variables, one level
+		if deferred && depth == 0 {
+			var fn *ssa.Function
+			var binds []ssa.Value
+			switch f := cc.Value.(type) {
+			case *ssa.Function:
+				fn = f
+			case *ssa.MakeClosure:
+				fn, _ = f.Fn.(*ssa.Function)
+				binds = f.Bindings
+			}
+			if fn == nil || fn.Pkg != g.pkg || len(fn.Blocks) == 0 {
+				return
+			}
+			kid := &cgCtx{parent: c, fn: fn, nodes: map[*ssa.BasicBlock][]*cgNode{}, kids: map[ssa.Instruction]*cgCtx{}, views: map[ssa.Value][]*cgCtx{}, id: 100000 + len(out), key: c.key + "/defer"}
+			for _, a := range cc.Args {
+				kid.args = append(kid.args, CV{c, a})
+			}
+			for _, b := range binds {
+				kid.binds = append(kid.binds, CV{c, b})
+			}
+			allInstrs(fn, func(in ssa.Instruction) {
+				if ci, ok := in.(ssa.CallInstruction); ok {
+					fromCall(kid, ci.Common(), ci.Pos(), false, depth+1)
+				}
+				if st, ok := in.(*ssa.Store); ok {
+					if ia, ok := st.Addr.(*ssa.IndexAddr); ok && isBytes(ia.X) {
+						out = append(out, c01Sink{CV{kid, ia.X}, "an element store", p.Pos(st.Pos())})
+					}
+				}
+			})
+		}
+	}
+	for _, n := range g.nodes {
+		for _, in := range n.instrs() {
+			switch y := in.(type) {
+			case *ssa.Defer:
+				fromCall(n.C, y.Common(), y.Pos(), true, 0)
+			case ssa.CallInstruction:
+				fromCall(n.C, y.Common(), y.Pos(), false, 0)
+			case *ssa.Store:
+				if ia, ok := y.Addr.(*ssa.IndexAddr); ok && isBytes(ia.X) {
+					out = append(out, c01Sink{CV{n.C, ia.X}, "an element store", p.Pos(y.Pos())})
+				}
+			}
+		}
+	}
+	return out
+}
+
+// callbackMemory (R9): the byte slices returned by the caller's key callbacks stay untouched — an unwrap/wrap
+// function may hand out a slice it keeps (a key cache), so overwriting it breaks every later use of that key.
+func (x *c01Ctx) callbackMemory(g *cGraph, root, rule string, fields []string) {
+	r := x.r
+	owned := map[CV]string{}
+	for _, f := range fields {
+		for _, call := range g.callsThroughField(f) {
+			c := call.V.(*ssa.Call)
+			sig := c.Call.Signature()
+			for i := 0; i < sig.Results().Len(); i++ {
+				if sl, ok := sig.Results().At(i).Type().Underlying().(*types.Slice); ok {
+					if b, ok := sl.Elem().Underlying().(*types.Basic); ok && b.Kind() == types.Byte {
+						if v := callResult(c, i); v != nil {
+							owned[g.res(CV{call.C, v})] = f
+						}
+					}
+				}
+			}
+		}
+	}
+	cons := root + " leaves the callbacks' key slices untouched"
+	if len(owned) == 0 {
+		r.Undecide("C01.R9: %s: no call through %v returning a byte slice found", root, fields)
+		return
+	}
+	sinks := g.writeSinks(x.p)
+	for _, sk := range sinks {
+		srcs := g.sources(sk.dst)
+		var roots []CV
+		for _, sv := range srcs {
+			roots = append(roots, sv)
+			rt := g.sliceRoot(sv)
+			if rt != sv {
+				roots = append(roots, g.sources(rt)...)
+			}
+		}
+		for _, rt := range roots {
+			if f, ok := owned[g.res(rt)]; ok {
+				r.Violation(rule, cons, sk.pos, fmt.Sprintf("%s overwrites (%s) a byte slice that can be the one returned by the caller's %s: that function may hand out memory it keeps (a cache of unwrapped keys, a fixed key), so after the first call the key it returns is destroyed and later documents using it no longer decrypt / are wrapped with garbage; work on a copy", root, sk.what, f))
+				return
+			}
+		}
+	}
+	r.OK(rule, cons, "-", fmt.Sprintf("none of the %d places that overwrite a byte slice can reach a slice returned by %v", len(sinks), fields))
 }
 
 // opArgs: R4 — nonce comes from the pipeline's (counter,last), no AAD; finds the nonce buffer.
@@ -249,8 +415,8 @@ func (x *c01Ctx) derivs(d *c01Dir) []c01Deriv {
 	var out []c01Deriv
 	for _, hk := range g.callsTo("golang.org/x/crypto/hkdf", "", "New") {
 		dv := c01Deriv{call: hk}
-		dv.secret = g.srcSet(g.sources(g.arg(hk, 1)))
-		saltSrc := g.sources(g.arg(hk, 2))
+		dv.secret = g.srcSet(g.contentSources(g.arg(hk, 1)))
+		saltSrc := g.contentSources(g.arg(hk, 2))
 		dv.salt = g.srcSet(saltSrc)
 		dv.saltOK = len(saltSrc) > 0
 		dv.info, dv.infoOK = g.constString(g.arg(hk, 3))
@@ -309,7 +475,7 @@ func (x *c01Ctx) kdfG(d *c01Dir) {
 	var fileKey map[CV]bool
 	if d.seal {
 		for _, w := range g.callsThroughField("WrapKeyFn") {
-			fileKey = g.srcSet(g.sources(g.arg(w, 0)))
+			fileKey = g.srcSet(g.contentSources(g.arg(w, 0)))
 		}
 	} else {
 		for _, u := range g.callsThroughField("UnwrapKeyFn") {
@@ -318,7 +484,7 @@ func (x *c01Ctx) kdfG(d *c01Dir) {
 			}
 		}
 	}
-	prefix := g.srcSet(d.prefixSrc)
+	prefix := g.srcSet(g.contentSourcesOf(d.prefixSrc))
 	if u := g.unresolved(hmacKey, aeadKey, fileKey, prefix); len(u) > 0 {
 		r.Undecide("C01.R3: %s: the origin of a key/prefix value is held somewhere the flow model cannot follow (%s); key-derivation rules not decided", d.root, g.desc(u[0]))
 		return
@@ -391,6 +557,8 @@ func (x *c01Ctx) kdfG(d *c01Dir) {
 		switch {
 		case dv.info != sp[1] || !saltGood:
 			r.Violation(c01R3, cons, pos, fmt.Sprintf("the %s is derived with info=%q salt=%s; the README says info=%q salt=%s: Encrypt and Decrypt may still agree with each other but not with the published format", k.use, dv.info, g.descSet(dv.salt), sp[1], sp[0]))
+		case !secretGood && g.derivedByCall(dv.secret, fileKey):
+			r.Undecide("C01.R3: %s: the HKDF input is computed from the file key by a call the flow model does not interpret (%s)", d.root, g.descSet(dv.secret))
 		case !secretGood:
 			what := "the file key that Encrypt hands to WrapKeyFn"
 			if !d.seal {
@@ -1902,4 +2070,83 @@ func (g *cGraph) decideAlong(cond CV, n *cgNode, taken *cgTaken) (val, decided b
 		return cmp.Op == token.EQL, true
 	}
 	return false, false
+}
+
+// contentSources: like sources, but a byte slice that is a COPY of another (bytes.Clone, slices.Clone,
+// append(nil/empty, x...), make + copy(dst, x)) has the origins of what was copied: the rules compare where key
+// bytes come from, not which buffer holds them.
+func (g *cGraph) contentSources(v CV) []CV {
+	return g.contentSourcesOf(g.sources(v))
+}
+
+func (g *cGraph) contentSourcesOf(leaves []CV) []CV {
+	seen := map[CV]bool{}
+	var out []CV
+	var walk func(x CV, d int)
+	walk = func(x CV, d int) {
+		if seen[x] || d > 8 {
+			return
+		}
+		seen[x] = true
+		inner := func(arg CV) {
+			for _, sv := range g.sources(arg) {
+				walk(sv, d+1)
+			}
+		}
+		switch y := x.V.(type) {
+		case *ssa.Call:
+			switch {
+			case (callIs(y, "bytes", "", "Clone") || callIs(y, "slices", "", "Clone")) && len(y.Call.Args) == 1:
+				inner(CV{x.C, y.Call.Args[0]})
+				return
+			case builtinName(y) == "append" && len(y.Call.Args) == 2:
+				if l, ok := g.sliceLenLin(CV{x.C, y.Call.Args[0]}, 0); g.isNil(CV{x.C, y.Call.Args[0]}) || (ok && l.isConst() && l.K == 0) {
+					inner(CV{x.C, y.Call.Args[1]})
+					return
+				}
+			}
+		case *ssa.MakeSlice:
+			// make + copy(dst, src) with dst this buffer from its start
+			found := false
+			g.eachInstr(func(n *cgNode, in ssa.Instruction) {
+				c, ok := in.(*ssa.Call)
+				if !ok || builtinName(c) != "copy" || len(c.Call.Args) != 2 {
+					return
+				}
+				dst := CV{n.C, c.Call.Args[0]}
+				if g.sliceRoot(dst) == x && g.sliceLowZero(dst, 0) {
+					found = true
+					inner(CV{n.C, c.Call.Args[1]})
+				}
+			})
+			if found {
+				return
+			}
+		case *ssa.Slice:
+			// a window: origins of the whole, kept as the window itself when that is a plain buffer
+		}
+		out = append(out, x)
+	}
+	for _, l := range leaves {
+		walk(l, 0)
+	}
+	return out
+}
+
+// derivedByCall: some origin in got is the result of an unexpanded call one of whose arguments comes from want.
+func (g *cGraph) derivedByCall(got, want map[CV]bool) bool {
+	for v := range got {
+		c, ok := v.V.(*ssa.Call)
+		if !ok || g.inlinedCall(v) != nil {
+			continue
+		}
+		for _, a := range c.Call.Args {
+			for _, sv := range g.contentSources(CV{v.C, a}) {
+				if want[sv] {
+					return true
+				}
+			}
+		}
+	}
+	return false
 }
